@@ -33,3 +33,35 @@ Proof. vm_compute. reflexivity. Qed.
 Example C05_message_7byte_response_rejected :
   decode_message message_zero [0x81; 0x1c; 0x63; 0x20; 0x04; 0x01; 0xdb] = Err.
 Proof. vm_compute. reflexivity. Qed.
+
+(* ---- the remaining layers (variable-length parts, the session wrapper, AES over any block function of the right length) ---- *)
+From BMC Require Import LayerTotal2 PipelineTotal Packet Conn Handshake Proc.
+Theorem C05_fsr : forall old bs, decode_fsr old bs <> Fault. Proof. exact fsr_total. Qed.
+Theorem C05_v2session : forall sign old bs, decode_v2session sign old bs <> Fault. Proof. exact v2session_total. Qed.
+Theorem C05_aescbc : forall dec, (forall b, length (dec b) = 16%nat) -> forall old bs, decode_aescbc dec old bs <> Fault.
+Proof. exact aescbc_total. Qed.
+Theorem C05_dcmicaps : forall old bs, decode_dcmicaps old bs <> Fault. Proof. exact dcmicaps_total. Qed.
+Theorem C05_dcmimand : forall old bs, decode_dcmimand old bs <> Fault. Proof. exact dcmimand_total. Qed.
+Theorem C05_dcmiopt : forall old bs, decode_dcmiopt old bs <> Fault. Proof. exact dcmiopt_total. Qed.
+Theorem C05_dcmimgmt : forall old bs, decode_dcmimgmt old bs <> Fault. Proof. exact dcmimgmt_total. Qed.
+Theorem C05_dcmipower : forall old bs, decode_dcmipower old bs <> Fault. Proof. exact dcmipower_total. Qed.
+Theorem C05_dcmisensor : forall old bs, decode_dcmisensor old bs <> Fault. Proof. exact dcmisensor_total. Qed.
+
+(* ---- pipeline level: whatever is delivered as the reply, at any attempt of a session-less command, a handshake
+   exchange or an in-session command (with ANY keys: [s_sign], [s_dec] arbitrary, i.e. also for a party that knows
+   them), the retry loops and the handshake end in a value or an error, never in a fault ---- *)
+Theorem C05_receive : forall sign conf bs, conf_ok conf -> receive sign conf bs <> Fault.
+Proof. exact receive_total. Qed.
+Theorem C05_sessionless_command : forall pkt o script sent codes,
+  lr_outcome (sessionless_loop pkt o script sent codes) <> OFault.
+Proof. exact sessionless_loop_no_fault. Qed.
+Theorem C05_session_command : forall s o lun body script seq ivs sent codes,
+  (forall b, length (s_dec s b) = 16%nat) ->
+  lr_outcome (session_loop s o lun body seq ivs script sent codes) <> OFault.
+Proof. exact session_loop_no_fault. Qed.
+Theorem C05_handshake : forall o s random sc1 sc2 sc3, snd (new_session o s random sc1 sc2 sc3) <> inr EFault.
+Proof. exact new_session_no_fault. Qed.
+(* cipher-suite record parsing: no fault and the fuel (one unit per byte) is never exhausted, i.e. it terminates *)
+Theorem C05_parse_records : forall joined acc,
+  parse_records (length joined) joined acc <> RsFault /\ parse_records (length joined) joined acc <> RsOutOfFuel.
+Proof. exact parse_records_total. Qed.
